@@ -529,7 +529,14 @@ def rethCombos (n : Nat) : List (Nat × Nat × Nat × Target) :=
       let a := (rethNums j)[(b + t) % 5]?.getD 2
       (i, b, j, if t == 1 then Target.alt a else if t == 2 then Target.inside a else Target.endobj a)) ++
     ((List.range n).map fun j => (i, b, j, Target.sect)) ++
-    [(i, b, (i + 1) % n, Target.stm), (i, b, 0, Target.header)])
+    [(i, b, (i + 1) % n, Target.stm), (i, b, 0, Target.header)]) ++
+  -- SELF ROWS (appended last: the older cases keep their indices): the row the cross-reference stream object 100 + i of
+  -- revision i has for itself, aimed at an object of every revision, into one, at an `endobj`, at the header; a
+  -- revision written as a classic table has no such object: the entry is then an ordinary added one (rejected)
+  ((List.range n).flatMap fun i =>
+    ((List.range n).flatMap fun j => [(i, 100 + i, j, Target.own ((rethNums j)[(i + j) % 5]?.getD 2)),
+                                      (i, 100 + i, j, Target.own ((rethNums j)[(i + j + 2) % 5]?.getD 2))]) ++
+    [(i, 100 + i, (i + 1) % n, Target.inside 2), (i, 100 + i, (i + 1) % n, Target.endobj 2), (i, 100 + i, 0, Target.header)])
 
 def genReth (seed n idx : Nat) : RetCase :=
   let (revs, garbage, bin, r) := rethRevs seed n
@@ -644,6 +651,7 @@ def nontrivial (line : String) : Bool :=
   | "ench" :: _ => true
   | "enc" :: _ => true
   | "decl" :: _ => true
+  | "selfrow" :: _ => true
   | "w0" :: _ => true
   | "exp" :: _ => true
   | "mut" :: hex :: _ => hex.length ≥ 400
